@@ -17,7 +17,7 @@ import z3
 
 from . import logic as L
 from .extract import function_of_object, get_function, loops_of, loop_fingerprint, real_module
-from .values import (SBytes, SClosure, SIter, SIterator, SList, SMethod, SObj, SOpaque, SymError, SYields)
+from .values import (SBytes, SClosure, SIter, SIterator, SList, SMap, SMethod, SObj, SOpaque, SymError, SYields)
 
 
 class PathEnd(Exception):
@@ -700,7 +700,7 @@ class Interp:
                 fr.env[name] = spec.types[name].fresh(ctx, name)
             elif name in fr.env:
                 cur = fr.env[name]
-                if isinstance(cur, (SList, list, SObj, dict)):
+                if isinstance(cur, (SList, list, SObj, dict, SMap)):
                     continue  # heap objects handled below (by identity)
                 if cur is None:
                     raise SymError("loop %s: variable %r is None at entry; give its type in the loop spec" % (tag, name))
@@ -722,6 +722,9 @@ class Interp:
                 obj.arr = z3.Array(ctx.fresh_name("hv"), z3.IntSort(), obj.arr.sort().range())
                 obj.n = ctx.fresh_int("hv_len")
                 ctx.assume(obj.n >= 0)
+            elif kind == "smap":
+                obj.dom = z3.Array(ctx.fresh_name("mdom"), z3.IntSort(), z3.BoolSort())
+                obj.val = z3.Array(ctx.fresh_name("mval"), z3.IntSort(), obj.val.sort().range())
             elif kind == "yields":
                 obj.arr = z3.Array(ctx.fresh_name("ys"), z3.IntSort(), z3.IntSort())
                 obj.n = ctx.fresh_int("ys_len")
@@ -783,6 +786,8 @@ class Interp:
         if self.ctx.writes is not None:
             if isinstance(obj, SObj):
                 self.ctx.writes.append(("attr", id(obj), fld))
+            elif isinstance(obj, SMap):
+                self.ctx.writes.append(("smap", id(obj), None))
             elif isinstance(obj, SYields):
                 self.ctx.writes.append(("yields", id(obj), None))
             elif isinstance(obj, SList):
@@ -822,7 +827,9 @@ class Interp:
                         heap.append(("slist", sl, None))
             elif isinstance(n, ast.Subscript) and isinstance(n.ctx, ast.Store):
                 o = heap_target(n.value)
-                if isinstance(o, SList):
+                if isinstance(o, SMap):
+                    heap.append(("smap", o, None))
+                elif isinstance(o, SList):
                     heap.append(("slist", o, None))
                 elif isinstance(o, list):
                     sl = self.promote_list(o, n.value, fr, spec)
